@@ -4,6 +4,7 @@
 //! accepted).
 
 use std::sync::{Arc, Mutex};
+use std::future::Future as _;
 use std::time::Duration;
 
 use deadpool::managed::{Pool, Timeouts};
@@ -408,5 +409,97 @@ pub fn build_table() -> (u64, Vec<String>) {
             }
         }
     }
+    (n, bad)
+}
+
+
+// ------------------------------------------------------------------ zero wait on the real clock
+
+/// "With a zero wait timeout it never waits": judged by the first poll on a runtime with the REAL
+/// clock (on the paused clock a zero-length timer is indistinguishable from no timer at all).
+/// Returns (cases, violations).
+pub fn zero_wait_real_clock() -> (u64, Vec<String>) {
+    use deadpool::unmanaged;
+    let rt = tokio::runtime::Builder::new_current_thread().enable_time().build().expect("rt");
+    let mut bad = Vec::new();
+    let mut n = 0;
+    rt.block_on(async {
+        let waker = std::task::Waker::from(Arc::new(super::director::Flag(std::sync::atomic::AtomicBool::new(false))));
+        let mut cx = std::task::Context::from_waker(&waker);
+        // ---- unmanaged, runtime set, pool empty: timeout_get(Some(0)) and get() with a configured zero timeout
+        for via_config in [false, true] {
+            for with_runtime in [true, false] {
+                n += 1;
+                let mut c = unmanaged::PoolConfig::new(1);
+                c.runtime = if with_runtime { Some(Runtime::Tokio1) } else { None };
+                c.timeout = if via_config { Some(Duration::ZERO) } else { None };
+                let pool: unmanaged::Pool<u32> = unmanaged::Pool::from_config(&c);
+                let mut fut: std::pin::Pin<Box<dyn std::future::Future<Output = Result<unmanaged::Object<u32>, unmanaged::PoolError>>>> =
+                    if via_config { Box::pin(pool.get()) } else { Box::pin(pool.timeout_get(Some(Duration::ZERO))) };
+                match fut.as_mut().poll(&mut cx) {
+                    std::task::Poll::Ready(Err(unmanaged::PoolError::Timeout)) => {}
+                    std::task::Poll::Ready(other) => bad.push(format!("unmanaged zero-timeout get (config={}, runtime={}) on an empty pool returned {:?}", via_config, with_runtime, other.map(|_| ()))),
+                    std::task::Poll::Pending => bad.push(format!("unmanaged zero-timeout get (config={}, runtime={}) on an empty pool suspended instead of failing at once", via_config, with_runtime)),
+                }
+            }
+        }
+        // ---- managed, runtime set, all slots in use
+        for via_config in [false, true] {
+            n += 1;
+            let w = Arc::new(Mutex::new(World::new(
+                "C10",
+                PoolCfg { max_size: 1, mode: Mode::Fifo, post_create: vec![], pre_recycle: vec![], post_recycle: vec![], wait: if via_config { Some(Duration::ZERO) } else { None }, create: None, recycle: None, runtime: true },
+                Rng::new(1),
+            )));
+            lock(&w).probe_mode = true;
+            let pool = match build_pool(&w) {
+                Ok(p) => p,
+                Err(e) => {
+                    bad.push(format!("harness: {}", e));
+                    continue;
+                }
+            };
+            lock(&w).op = Op::Poll(0);
+            lock(&w).tasks.push(super::world::TaskInfo {
+                kind: TaskKind { per_call: None, outer: None },
+                eff: CallTimeouts { wait: None, create: None, recycle: None },
+                phase: Phase::NotPolled,
+                started_at: None,
+                call_started_at: None,
+                last_fail: None,
+                script: Default::default(),
+                calls: 0,
+                pending_polls: 0,
+                had_to_wait: false,
+                result: None,
+                free_at_start: 1,
+                closed_at_start: false,
+            });
+            let held = pool.timeouts();
+            let _ = held;
+            let first = {
+                let mut f = Box::pin(pool.timeout_get(&Timeouts { wait: Some(Duration::ZERO), create: None, recycle: None }));
+                f.as_mut().poll(&mut cx)
+            };
+            let obj = match first {
+                std::task::Poll::Ready(Ok(o)) => o,
+                _ => {
+                    bad.push("harness: could not take the only slot".into());
+                    continue;
+                }
+            };
+            let t = Timeouts { wait: Some(Duration::ZERO), create: None, recycle: None };
+            let mut fut: std::pin::Pin<Box<dyn std::future::Future<Output = Result<Wrapped, deadpool::managed::PoolError<super::manager::ErrNo>>>>> = if via_config { Box::pin(pool.get()) } else { Box::pin(pool.timeout_get(&t)) };
+            match fut.as_mut().poll(&mut cx) {
+                std::task::Poll::Ready(Err(deadpool::managed::PoolError::Timeout(deadpool::managed::TimeoutType::Wait))) => {}
+                std::task::Poll::Ready(other) => bad.push(format!("managed zero-wait get (config={}) with all slots in use returned {:?}", via_config, other.map(|_| ()))),
+                std::task::Poll::Pending => bad.push(format!("managed zero-wait get (config={}) with all slots in use suspended instead of failing at once", via_config)),
+            }
+            drop(fut);
+            lock(&w).teardown = true;
+            drop(obj);
+            drop(pool);
+        }
+    });
     (n, bad)
 }
